@@ -2,8 +2,10 @@
    corr = the executable model's output equals the implementation's observed output (ID lists as sets without repetition, tuples exactly,
           error as a flag);
    prop = the boolean checker of ChangeZoom.v (proved equivalent to the specification) accepts the implementation's observed output.
-   Inputs that are parseable but not valid IDs lie outside the property's quantifier: only the correspondence is checked there (and only
-   where int64 arithmetic cannot wrap); calls whose result would be huge are never generated and are refused here (the shrinker may propose them). *)
+   Inputs that parse but are not valid IDs lie outside the property's quantifier: where every zoom field is in 0..35 and every index is below
+   2^36 in absolute value the correspondence and a basic well-formedness check of the output are judged, otherwise the case is answered
+   "skipped" (not judged, counted separately). A call refused by the invoker (marker value) is "skipped" only if the entry's own estimate
+   confirms it is over the cap, otherwise bad_case. *)
 From Coq Require Import ZArith String List Bool.
 From SID Require Import Base Str Ids Wire ZoomCore ChangeZoom.
 Import ListNotations.
@@ -11,8 +13,12 @@ Open Scope Z_scope.
 
 Definition skip_marker : string := "skipped-too-large"%string.
 Definition is_skip (obs : val) : bool := match obs with VS s => String.eqb s skip_marker | _ => false end.
-Definition pass : verdict := mkv true true "-"%string VNil.
-Definition cap : Z := 20000.
+(* a case that is not judged: counted separately by the runner (guard_skips), neither an evaluation nor a pass *)
+Definition skipped : verdict := mkv true true "skipped"%string VNil.
+(* the Go invokers refuse a call whose estimated result exceeds go_cap (harness/props/c03: goCap, 20000 for the helpers); the entries below
+   recompute the estimate and accept the refusal only when it is justified *)
+Definition go_cap : Z := 8000.
+Definition helper_cap : Z := 20000.
 
 (* number of IDs produced before de-duplication *)
 Definition est_one (H V : Z) (i : eid) : Z := 4 ^ Z.max 0 (H - eh i) * 2 ^ Z.max 0 (V - ev i).
@@ -35,25 +41,33 @@ Definition verdict_ids (m : result (list string)) (obs : val) (chk : list string
       end
   end.
 
+(* what holds of every successful result whatever the inputs are (used where the inputs parse but are not valid IDs, i.e. outside the
+   property's quantifier): every string is the ID() string of an ID at the requested zooms, no repetition *)
+Definition check_basic (pr : eid -> string) (pa : string -> option eid) (H V : Z) (obs : list string) : bool :=
+  match map_opt pa obs with
+  | None => false
+  | Some ts => list_eqb String.eqb (map pr ts) obs && nodup_ok eid_eqb ts && forallb (fun o => (eh o =? H) && (ev o =? V)) ts
+  end.
+
 Definition decide (zoom_ok : bool) (parsed : option (list eid)) (H V : Z) (slow : unit -> result (list string))
-    (pr : eid -> string) (chk : list eid -> list string -> bool) (obs : val) : verdict :=
-  if is_skip obs then pass
-  else if negb zoom_ok then verdict_ids (slow tt) obs (fun _ => false)
-  else match parsed with
-       | None => verdict_ids (slow tt) obs (fun _ => false)
-       | Some es =>
-           if negb (forallb small_eid es) then pass
-           else if cap <? est es H V then bad_case
-           else if forallb validb es then verdict_ids (Ok (map pr (change_eids es H V))) obs (chk es)   (* = the API model: change_*_api_parsed *)
-           else verdict_ids (slow tt) obs (fun _ => true)
-       end.
+    (pr : eid -> string) (pa : string -> option eid) (chk : list eid -> list string -> bool) (obs : val) : verdict :=
+  match parsed with
+  | Some es =>
+      if negb (forallb small_eid es) then (if zoom_ok then skipped else verdict_ids Err obs (fun _ => false))   (* absurd fields: not comparable with int64 code *)
+      else if negb zoom_ok then (if is_skip obs then bad_case else verdict_ids (slow tt) obs (fun _ => false))
+      else if is_skip obs then (if go_cap <? est es H V then skipped else bad_case)
+      else if go_cap <? est es H V then bad_case      (* never generated; the invoker must have refused it *)
+      else if forallb validb es then verdict_ids (Ok (map pr (change_eids es H V))) obs (chk es)   (* = the API model: change_*_api_parsed *)
+      else verdict_ids (slow tt) obs (check_basic pr pa H V)
+  | None => if is_skip obs then bad_case else verdict_ids (slow tt) obs (fun _ => false)
+  end.
 
 (* ChangeExtendedSpatialIdsZoom(ids, hZoom, vZoom) *)
 Definition d_ext (args : list val) (obs : val) : verdict :=
   match args with
   | [ids; VZ H; VZ V] =>
       match as_LS ids with
-      | Some sl => decide (check_zoom H && check_zoom V) (parse_all sl) H V (fun _ => change_ext_api sl H V) print_eid
+      | Some sl => decide (check_zoom H && check_zoom V) (parse_all sl) H V (fun _ => change_ext_api sl H V) print_eid parse_eid
                      (fun es => check_change es H V) obs
       | None => bad_case
       end
@@ -65,7 +79,7 @@ Definition d_sid (args : list val) (obs : val) : verdict :=
   match args with
   | [ids; VZ z] =>
       match as_LS ids with
-      | Some sl => decide (check_zoom z) (map_opt parse_sid sl) z z (fun _ => change_sid_api sl z) print_sid
+      | Some sl => decide (check_zoom z) (map_opt parse_sid sl) z z (fun _ => change_sid_api sl z) print_sid parse_sid
                      (fun es => check_change_sid es z) obs
       | None => bad_case
       end
@@ -77,13 +91,15 @@ Definition small_idx (z : Z) : bool := Z.abs z <? 2 ^ 36.
 Definition d_hzoom (args : list val) (obs : val) : verdict :=
   match args with
   | [VZ zin; VZ x; VZ y; VZ zout] =>
-      if is_skip obs then pass
-      else if negb (check_zoom zin && check_zoom zout && small_idx x && small_idx y) then pass
-      else if 7 <? zout - zin then bad_case
+      if negb (check_zoom zin && check_zoom zout && small_idx x && small_idx y) then skipped
       else
-        let m := hzoom_strs zin x y zout in
-        let dom := (0 <=? x) && (x <? 2 ^ zin) && (0 <=? y) && (y <? 2 ^ zin) in
-        verdict_ids (Ok m) obs (fun ol => if dom then check_hzoom zin x y zout ol else true)
+        let n := 4 ^ Z.max 0 (zout - zin) in
+        if is_skip obs then (if helper_cap <? n then skipped else bad_case)
+        else if helper_cap <? n then bad_case
+        else
+          let m := hzoom_strs zin x y zout in
+          let dom := (0 <=? x) && (x <? 2 ^ zin) && (0 <=? y) && (y <? 2 ^ zin) in
+          verdict_ids (Ok m) obs (fun ol => if dom then check_hzoom zin x y zout ol else nodup_strings ol && Nat.eqb (length ol) (Z.to_nat n))
   | _ => bad_case
   end.
 
@@ -91,13 +107,15 @@ Definition d_hzoom (args : list val) (obs : val) : verdict :=
 Definition d_vzoom (args : list val) (obs : val) : verdict :=
   match args with
   | [VZ zin; VZ f; VZ zout] =>
-      if is_skip obs then pass
-      else if negb (check_zoom zin && check_zoom zout && small_idx f) then pass
-      else if 14 <? zout - zin then bad_case
+      if negb (check_zoom zin && check_zoom zout && small_idx f) then skipped
       else
-        let m := vzoom_strs zin f zout in
-        let dom := (- 2 ^ zin <=? f) && (f <? 2 ^ zin) in
-        verdict_ids (Ok m) obs (fun ol => if dom then check_vzoom zin f zout ol else true)
+        let n := 2 ^ Z.max 0 (zout - zin) in
+        if is_skip obs then (if helper_cap <? n then skipped else bad_case)
+        else if helper_cap <? n then bad_case
+        else
+          let m := vzoom_strs zin f zout in
+          let dom := (- 2 ^ zin <=? f) && (f <? 2 ^ zin) in
+          verdict_ids (Ok m) obs (fun ol => if dom then check_vzoom zin f zout ol else nodup_strings ol && Nat.eqb (length ol) (Z.to_nat n))
   | _ => bad_case
   end.
 
@@ -105,12 +123,14 @@ Definition d_vzoom (args : list val) (obs : val) : verdict :=
 Definition d_minmax (args : list val) (obs : val) : verdict :=
   match args with
   | [VZ zin; VZ x; VZ y; VZ zout] =>
-      if negb (check_zoom zin && check_zoom zout && small_idx x && small_idx y) then pass
+      if negb (check_zoom zin && check_zoom zout && small_idx x && small_idx y) then skipped
       else match as_LZ obs with
            | Some ol =>
                let m := hzoom_minmax_l zin x y zout in
                let dom := (0 <=? x) && (x <? 2 ^ zin) && (0 <=? y) && (y <? 2 ^ zin) in
-               mkv (list_eqb Z.eqb m ol) (if dom then check_minmax zin x y zout ol else true) "-"%string (of_LZ m)
+               mkv (list_eqb Z.eqb m ol)
+                   (if dom then check_minmax zin x y zout ol
+                    else match ol with [a; b; c; d] => (a <=? c) && (b <=? d) | _ => false end) "-"%string (of_LZ m)
            | None => bad_case
            end
   | _ => bad_case
@@ -122,14 +142,19 @@ Definition single_table : table :=
    ("HorizontalZoomMinMax"%string, fun _ => d_minmax)].
 
 (* Sequence: calls performed back to back by one invoker (exposes state kept between calls); every call is judged as above *)
+(* class of a sequence: a refused element does not excuse a failing one *)
+Definition seq_class (v r : verdict) : string :=
+  if String.eqb (v_class v) "bad-case" || String.eqb (v_class r) "bad-case" then "bad-case"%string
+  else if v_corr v && v_corr r && v_prop v && v_prop r
+       then (if String.eqb (v_class v) "skipped" then "skipped"%string else v_class r)
+       else "-"%string.
 Fixpoint seq_verdict (o : oracle_t) (calls obs : list val) : verdict :=
   match calls, obs with
   | [], [] => mkv true true "-"%string (VL [])
   | VL [VS fn; VL a] :: cr, ob :: obr =>
       let v := run_table single_table o fn a ob in
       let r := seq_verdict o cr obr in
-      mkv (v_corr v && v_corr r) (v_prop v && v_prop r)
-          (if String.eqb (v_class v) "-" then v_class r else v_class v)
+      mkv (v_corr v && v_corr r) (v_prop v && v_prop r) (seq_class v r)
           (match v_model r with VL l => VL (v_model v :: l) | _ => VNil end)
   | _, _ => bad_case
   end.
